@@ -77,8 +77,54 @@ func jarNames(b *browser) []string {
 	return out
 }
 
+// cookieValidation: config.Cookie.Validate (the start-up rule "insecure cookies only with all-localhost plain-http ingresses") on every single and
+// paired ingress drawn from look-alike host names x {http, https} x secure on/off x same-site values.
+func cookieValidation(c *ctx) {
+	hosts := []string{"localhost", "localhost:3000", "LOCALHOST:8080", "LocalHost", "localhost.example.com", "localhost.nais.io:3000", "notlocalhost", "app.localhost", "localhostx",
+		"localhost-dev.example.com", "127.0.0.1:3000", "[::1]:8080", "app.example.com", "localhost.", "xn--lcalhost-7ya"}
+	var single []string
+	for _, h := range hosts {
+		single = append(single, "http://"+h, "https://"+h, "http://"+h+"/some/path")
+	}
+	var lists [][]string
+	lists = append(lists, []string{})
+	for _, a := range single {
+		lists = append(lists, []string{a})
+	}
+	for i := 0; i < 80; i++ {
+		lists = append(lists, []string{pick(c.rng, single[:9]), pick(c.rng, single)}) // first element: one of the genuine localhost spellings
+	}
+	lists = append(lists, []string{"http://localhost:3000", "http://localhost.nais.io"}, []string{"http://localhost", "http://localhost:8080/app"}, []string{"://bad"})
+	for _, l := range lists {
+		for _, secure := range []bool{true, false} {
+			for _, ss := range []config.SameSite{config.SameSiteLax, config.SameSiteNone, config.SameSiteStrict, "Bogus", ""} {
+				if ss != config.SameSiteLax && len(l) != 1 {
+					continue
+				}
+				cfg := &config.Config{Ingresses: l}
+				cfg.Cookie.Secure, cfg.Cookie.SameSite = secure, ss
+				err := cfg.Cookie.Validate(cfg)
+				var schemes, names []string
+				parses := true
+				for _, in := range l {
+					u, perr := url.ParseRequestURI(in)
+					if perr != nil {
+						parses = false
+						schemes, names = append(schemes, "?"), append(names, "?")
+						continue
+					}
+					schemes, names = append(schemes, u.Scheme), append(names, u.Hostname())
+				}
+				c.count("cookieval:" + fmtVal(err == nil))
+				c.emit("cookieval14", "secure", secure, "samesite", hx(string(ss)), "ingresses", l, "schemes", schemes, "hostnames", names, "parses", parses, "accepted", err == nil)
+			}
+		}
+	}
+}
+
 func runCook(c *ctx) {
 	_ = c.rng
+	cookieValidation(c)
 	nav := http.Header{"Sec-Fetch-Mode": {"navigate"}, "Sec-Fetch-Dest": {"document"}}
 	cfgs := []cookCfg{
 		{false, "", true, config.SameSiteLax, "https://app.example.com"},
